@@ -6,6 +6,7 @@
 #include "dsa.h"
 
 #include <algorithm>
+#include <map>
 #include <set>
 
 static std::vector<long> *g_ht_d, *g_ht_dk;
@@ -15,7 +16,13 @@ static void val_free(void *p) {
   if (g_ht_d) g_ht_d->push_back(*(long *)p);
   delete (long *)p;
 }
-static void key_free(void *p) { if (g_ht_dk) g_ht_dk->push_back(((long)(uintptr_t)p - 0x10000) / 16); }
+// pointer keys of the "wide" embedding (see HTableCtr::pkey) are decoded through this table
+static std::map<uintptr_t, long> g_pk_inv;
+static void key_free(void *p) {
+  if (!g_ht_dk) return;
+  auto it = g_pk_inv.find((uintptr_t)p);
+  g_ht_dk->push_back(it != g_pk_inv.end() ? it->second : ((long)(uintptr_t)p - 0x10000) / 16);
+}
 
 // generic table
 struct GB { long key; long *val; };
@@ -61,12 +68,23 @@ struct HTableCtr : Ctr {
   bool ci() const { return strvp || dict; }
   static std::string sval(long v) { return "v" + std::to_string(v); }
   static long        sval_inv(const char *s) { return (s && s[0] == 'v') ? atol(s + 1) : -1; }
-  static size_t      zkey(long k) { return (size_t)k * 1000003u + 17u; }
-  static void       *pkey(long k) { return (void *)(uintptr_t)(0x10000 + k * 16); }
+  // Embedding of the key ids into the key type.  emb 0: small distinct words.  emb 1 ("wide"): every key has the
+  // same low 32 bits and a different, arbitrary high word -- keys of a word-sized key type must be told apart by
+  // all of their bits (size_t and pointer keys only; socket keys are 32 bits wide).
+  long emb = 0;
+  static size_t hi(long k) { return (size_t)(uint32_t)((uint32_t)(k + 1) * 2654435761u); }   // distinct for distinct k
+  size_t zkey(long k) const { return emb == 1 ? ((hi(k) << 32) | 0x11u) : (size_t)k * 1000003u + 17u; }
+  void  *pkey(long k) const {
+    if (emb != 1) return (void *)(uintptr_t)(0x10000 + k * 16);
+    uintptr_t p = (uintptr_t)((hi(k) << 32) | 0x10000u);
+    g_pk_inv[p] = k;
+    return (void *)p;
+  }
 
   J create(const J &op, long) override {
     kind  = op.at_str(1);
     nkeys = op.at_int(2, 4);
+    emb   = op.at_int(4, 0);
     g_ht_d = &d; g_ht_dk = &dk;
     d.clear(); dk.clear();
     if (kind == "gen") live = (gen = ares_htable_create(g_hash, g_bucket_key, g_bucket_free, g_key_eq)) != nullptr;
@@ -228,6 +246,7 @@ struct HTableCtr : Ctr {
     // case-insensitive kinds: twice the ids (two spellings per key), so that nk distinct keys can be live
     op.push(J::Int(k == "strvp" || k == "dict" ? 2 * nk : nk));
     op.push(J::Int(0));
+    op.push(J::Int((k == "szvp" || k == "vpvp" || k == "vpstr") && r.chance(50) ? 1 : 0));   // key embedding
     return op;
   }
   J randop(Rng &r, long nk0, long, long) override {
